@@ -1,0 +1,461 @@
+//go:build verif
+
+package classifier
+
+// Machine-checked contracts for the v2 classifier (read by /verif/govc; this
+// file contains comments only and is compiled only with build tag verif).
+//
+// ---------------------------------------------------------------- arithmetic leaves (bit-precise)
+//
+//@ func max
+//@   inline
+//@
+//@ func confidencePercentage
+//@   arith bv
+//@   requires 0 <= distance && 0 <= klen && klen < (1 << 48)
+//@   ensures !isNaN(result) && result <= 1.0
+//@   ensures klen == 0 ==> result == 1.0
+//@   ensures klen > 0 && distance >= 1 ==> result < 1.0
+//@   ensures distance == 0 ==> result == 1.0
+//@   ensures distance <= klen ==> result >= 0.0
+//@   props C02 C03 C01
+//@
+//@ func computeQ
+//@   arith bv
+//@   requires 0.0 <= threshold && threshold <= 1.0
+//@   ensures result >= 1
+//@   ensures threshold == 1.0 ==> result == 10
+//@   ensures threshold == 0.8 ==> result == 4
+//@   ensures threshold >= 0.7 ==> result >= 2
+//@   props C01 C10
+//
+// ---------------------------------------------------------------- diff.go
+//
+//@ func wordLen
+//@   ensures result >= 0
+//@   ensures (text == "") <==> (result == 0)
+//@   modifies nothing
+//@   props C02 C10
+//@
+//@ func textLength
+//@   ensures result >= 0
+//@   modifies nothing
+//@   loop 1 invariant l >= 0
+//@   props C02 C10 C03
+//@
+//@ func diffRange
+//@   ensures 0 <= start && start <= end && end <= len(diffs)
+//@   modifies nothing
+//@   loop 1 invariant 0 <= start && start <= end && end <= len(diffs)
+//@   props C02 C10 C03
+//@
+// ---------------------------------------------------------------- scoring.go
+//
+//@ func diffLevenshteinWord
+//@   ensures result >= 0
+//@   modifies nothing
+//@   loop 1 invariant levenshtein >= 0 && insertions >= 0 && deletions >= 0
+//@   props C02 C10 C03
+//
+// ---------------------------------------------------------------- trace.go
+// Tracing never writes classifier memory. The user's Tracer callback is
+// assumed not to write memory reachable from the classifier.
+//
+//@ func fieldfunc TraceConfiguration.Tracer
+//@   pure
+//@
+//@ func (*TraceConfiguration).shouldTrace
+//@   modifies nothing
+//@   props C10 C04 C09
+//@
+//@ func (*TraceConfiguration).isTraceLicense
+//@   modifies nothing
+//@   props C10 C04 C09
+//@
+//@ func (*TraceConfiguration).trace
+//@   modifies nothing
+//@   props C10 C04 C09
+//@
+//@ func (*TraceConfiguration).traceSearchset
+//@   modifies nothing
+//@   props C10 C04 C09
+//@
+//@ func (*TraceConfiguration).traceTokenize
+//@   modifies nothing
+//@   props C10 C04 C09
+//@
+//@ func (*TraceConfiguration).traceScoring
+//@   modifies nothing
+//@   props C10 C04 C09
+//@
+//@ func (*TraceConfiguration).traceFrequency
+//@   modifies nothing
+//@   props C10 C04 C09
+//@
+//@ func (*TraceConfiguration).init
+//@   modifies t.traceLicenses, t.tracePhases
+//@   props C10
+//
+// ---------------------------------------------------------------- document.go: dictionary
+//
+//@ spec wfDict(d *dictionary) bool = d != nil && d.words != nil && d.indices != nil
+//@
+//@ func newDictionary
+//@   ensures fresh(result) && wfDict(result) && fresh(result.words) && fresh(result.indices)
+//@   ensures len(result.words) == 0 && len(result.indices) == 0
+//@   modifies nothing
+//@   props C10 C09
+//@
+//@ func (*dictionary).getIndex
+//@   requires d != nil
+//@   ensures (word in d.indices) ==> result == d.indices[word]
+//@   ensures !(word in d.indices) ==> result == 0
+//@   modifies nothing
+//@   props C10 C09 C04
+//@
+//@ func (*dictionary).getWord
+//@   requires d != nil
+//@   ensures (index in d.words) ==> result == d.words[index]
+//@   modifies nothing
+//@   props C10 C09 C04
+//@
+//@ func (*dictionary).add
+//@   requires wfDict(d)
+//@   ensures wfDict(d) && d.words == old(d.words) && d.indices == old(d.indices)
+//@   modifies entries(d.words), entries(d.indices)
+//@   props C10
+//@
+// ---------------------------------------------------------------- frequencies.go
+//
+//@ func newFrequencyTable
+//@   ensures fresh(result) && result.counts != nil && fresh(result.counts) && len(result.counts) == 0
+//@   modifies nothing
+//@   props C10 C09
+//@
+//@ func (*frequencyTable).update
+//@   requires f != nil && f.counts != nil && d != nil
+//@   ensures f.counts == old(f.counts)
+//@   modifies entries(f.counts)
+//@   props C10
+//@
+//@ func (*indexedDocument).generateFrequencies
+//@   requires d != nil
+//@   ensures d.f != nil && fresh(d.f) && d.f.counts != nil && fresh(d.f.counts)
+//@   ensures d.Tokens == old(d.Tokens) && d.dict == old(d.dict) && d.runes == old(d.runes) && d.Matches == old(d.Matches) && d.s == old(d.s) && d.Norm == old(d.Norm)
+//@   modifies d.f
+//@   props C10 C09
+//@
+//@ func (*indexedDocument).tokenSimilarity
+//@   requires d != nil && d.f != nil && o != nil && o.f != nil
+//@   modifies nothing
+//@   props C10 C09 C04
+//@
+//@ func (*indexedDocument).size
+//@   requires d != nil
+//@   ensures result == len(d.Tokens)
+//@   modifies nothing
+//@   props C10 C09
+//
+// ---------------------------------------------------------------- package-level variables
+//@ global unknownIndex-is-zero: unknownIndex == 0
+//@ global ignorableTexts-non-nil: forall i int :: 0 <= i && i < len(ignorableTexts) ==> ignorableTexts[i] != nil
+//
+// ---------------------------------------------------------------- searchset.go
+// okTR: a token range lies inside a document of n tokens.
+// okMR: a match range whose target side lies inside a target of tn tokens.
+//
+//@ spec okTR(r *tokenRange, n int) bool = r != nil && 0 <= r.Start && r.Start < r.End && r.End <= n
+//@ spec okHash(h hash, n int) bool = forall c uint32, j int :: (c in h) && 0 <= j && j < len(h[c]) ==> okTR(h[c][j], n)
+//@ spec okNodes(s *searchSet) bool = forall i int :: 0 <= i && i < len(s.nodes) ==> s.nodes[i] != nil && okTR(s.nodes[i].tokens, len(s.Tokens))
+//@ spec wfSet(s *searchSet) bool = s != nil && okNodes(s) && okHash(s.Hashes, len(s.Tokens))
+//@ spec okMR(m *matchRange, tn int) bool = m != nil && 0 <= m.SrcStart && 0 <= m.TargetStart && m.TargetStart < m.TargetEnd && m.TargetEnd <= tn
+//@ spec okMRs(ms matchRanges, tn int) bool = forall k int :: 0 <= k && k < len(ms) ==> okMR(ms[k], tn)
+//@
+//@ func (hash).add
+//@   inline
+//@
+//@ func generateHashes
+//@   requires h != nil && dict != nil && q >= 0 && len(h) == 0
+//@   ensures len(result0) == len(result1)
+//@   ensures forall i int :: 0 <= i && i < len(result1) ==> okTR(result1[i], len(toks))
+//@   ensures okHash(h, len(toks))
+//@   modifies entries(h)
+//@   loop 1 invariant 0 <= offset && q >= 1 && len(css) == len(tr) && okHash(h, len(toks))
+//@   loop 1 invariant (css == nil || fresh(css)) && (tr == nil || fresh(tr))
+//@   loop 1 invariant forall c uint32 :: (c in h) ==> fresh(h[c])
+//@   loop 1 invariant forall i int :: 0 <= i && i < len(tr) ==> okTR(tr[i], len(toks))
+//@   loop 2 invariant 0 <= i && i <= q && offset + q <= len(toks)
+//@   props C10 C17
+//@
+//@ func (*searchSet).generateNodeList
+//@   requires s != nil && len(s.Checksums) == len(s.ChecksumRanges) && s.nodes == nil
+//@   requires forall i int :: 0 <= i && i < len(s.ChecksumRanges) ==> okTR(s.ChecksumRanges[i], len(s.Tokens))
+//@   ensures okNodes(s)
+//@   ensures s.Tokens == old(s.Tokens) && s.Hashes == old(s.Hashes) && s.Checksums == old(s.Checksums) && s.ChecksumRanges == old(s.ChecksumRanges) && s.q == old(s.q)
+//@   modifies s.nodes
+//@   loop 1 invariant 0 <= i && i <= len(s.Checksums) && okNodes(s) && (s.nodes == nil || fresh(s.nodes))
+//@   loop 1 invariant s.Tokens == old(s.Tokens) && s.Checksums == old(s.Checksums) && s.ChecksumRanges == old(s.ChecksumRanges)
+//@   props C10
+//@
+//@ func newSearchSet
+//@   requires s != nil && s.dict != nil && q >= 0
+//@   ensures fresh(result) && wfSet(result) && result.Tokens == s.Tokens
+//@   modifies nothing
+//@   props C10 C09
+//@
+//@ func (*indexedDocument).generateSearchSet
+//@   requires d != nil && d.dict != nil && q >= 0
+//@   ensures fresh(d.s) && wfSet(d.s) && d.s.Tokens == d.Tokens
+//@   ensures d.Tokens == old(d.Tokens) && d.dict == old(d.dict) && d.runes == old(d.runes) && d.Matches == old(d.Matches) && d.f == old(d.f) && d.Norm == old(d.Norm)
+//@   modifies d.s
+//@   props C10 C09
+//
+//@ // sort.Sort on this package's sortable slices (ASSUMED: standard library).
+//@ // It permutes the slice through Swap and writes nothing else.
+//@ func extern sort.Sort
+//@   trusted
+//@   ensures typeis(data, "matchRanges") ==> (forall k int :: 0 <= k && k < len(unbox(data, "matchRanges")) ==> (exists j int :: 0 <= j && j < len(unbox(data, "matchRanges")) && unbox(data, "matchRanges")[k] == old(unbox(data, "matchRanges")[j])))
+//@   ensures typeis(data, "matchRanges") ==> (forall j int :: 0 <= j && j < len(unbox(data, "matchRanges")) ==> (exists k int :: 0 <= k && k < len(unbox(data, "matchRanges")) && unbox(data, "matchRanges")[k] == old(unbox(data, "matchRanges")[j])))
+//@   modifies elems(unbox(data, "matchRanges")) when typeis(data, "matchRanges")
+//@   modifies elems(unbox(data, "Matches")) when typeis(data, "Matches")
+//@
+//@ func targetMatchedRanges
+//@   requires wfSet(src) && wfSet(target)
+//@   ensures okMRs(result, len(target.Tokens))
+//@   ensures forall k int :: 0 <= k && k < len(result) ==> fresh(result[k])
+//@   ensures result == nil || fresh(result)
+//@   modifies nothing
+//@   loop 1 invariant offsetMappings != nil && fresh(offsetMappings) && matched == nil
+//@   loop 1 invariant forall o int, j int :: (o in offsetMappings) && 0 <= j && j < len(offsetMappings[o]) ==> okMR(offsetMappings[o][j], len(target.Tokens)) && fresh(offsetMappings[o][j])
+//@   loop 1 invariant forall o int :: (o in offsetMappings) ==> len(offsetMappings[o]) > 0 && fresh(offsetMappings[o])
+//@   loop 1 invariant forall o1 int, o2 int :: (o1 in offsetMappings) && (o2 in offsetMappings) && o1 != o2 ==> ref(offsetMappings[o1]) != ref(offsetMappings[o2])
+//@   loop 2 invariant offsetMappings != nil && fresh(offsetMappings) && matched == nil && tv != nil && okTR(tv, len(target.Tokens))
+//@   loop 2 invariant forall o int, j int :: (o in offsetMappings) && 0 <= j && j < len(offsetMappings[o]) ==> okMR(offsetMappings[o][j], len(target.Tokens))
+//@   loop 2 invariant forall o int, j int :: (o in offsetMappings) && 0 <= j && j < len(offsetMappings[o]) ==> fresh(offsetMappings[o][j])
+//@   loop 2 invariant forall o int :: (o in offsetMappings) ==> len(offsetMappings[o]) > 0 && fresh(offsetMappings[o])
+//@   loop 2 invariant forall o1 int, o2 int :: (o1 in offsetMappings) && (o2 in offsetMappings) && o1 != o2 ==> ref(offsetMappings[o1]) != ref(offsetMappings[o2])
+//@   loop 2 invariant forall j int :: 0 <= j && j < len(sr) ==> okTR(sr[j], len(src.Tokens))
+//@   loop 3 invariant okMRs(matched, len(target.Tokens)) && (matched == nil || fresh(matched))
+//@   loop 3 invariant forall k int :: 0 <= k && k < len(matched) ==> fresh(matched[k])
+//@   loop 3 invariant forall o int, j int :: (o in offsetMappings) && 0 <= j && j < len(offsetMappings[o]) ==> okMR(offsetMappings[o][j], len(target.Tokens)) && fresh(offsetMappings[o][j])
+//@   loop 3 invariant forall o int :: (o in offsetMappings) ==> ref(offsetMappings[o]) != ref(matched) && fresh(offsetMappings[o])
+//@   loop 4 invariant okMRs(matched, len(target.Tokens)) && (matched == nil || fresh(matched))
+//@   loop 4 invariant forall k int :: 0 <= k && k < len(matched) ==> fresh(matched[k])
+//@   loop 4 invariant forall o int, j int :: (o in offsetMappings) && 0 <= j && j < len(offsetMappings[o]) ==> okMR(offsetMappings[o][j], len(target.Tokens)) && fresh(offsetMappings[o][j])
+//@   loop 4 invariant forall o int :: (o in offsetMappings) ==> ref(offsetMappings[o]) != ref(matched) && fresh(offsetMappings[o])
+//@   loop 4 invariant forall j int :: 0 <= j && j < len(mr) ==> okMR(mr[j], len(target.Tokens)) && fresh(mr[j])
+//@   loop 4 invariant ref(mr) != ref(matched)
+//@   props C10 C09
+//
+//@ func (*Classifier).detectRuns
+//@   requires c != nil && targetLength >= 0 && subsetLength >= 0
+//@   requires forall j int :: 0 <= j && j < len(matched) ==> matched[j] != nil && 0 <= matched[j].TargetStart && matched[j].TargetEnd <= targetLength
+//@   ensures forall k int :: 0 <= k && k < len(result) ==> 0 <= result[k].SrcStart && result[k].SrcStart < targetLength
+//@   modifies nothing
+//@   loop 1 invariant len(hits) == targetLength && fresh(hits)
+//@   loop 2 invariant len(hits) == targetLength && fresh(hits) && 0 <= idx && m != nil && m.TargetEnd <= targetLength
+//@   loop 3 invariant 0 <= i && subsetLength <= len(hits) && 0 <= subsetLength
+//@   loop 4 invariant 1 <= i && 0 <= subsetLength && (out == nil || fresh(out))
+//@   loop 4 invariant forall k int :: 0 <= k && k < len(out) ==> 0 <= out[k] && out[k] < len(hits)
+//@   loop 5 invariant 1 <= i && len(final) >= 1 && fresh(final)
+//@   loop 5 invariant forall k int :: 0 <= k && k < len(final) ==> 0 <= final[k].SrcStart && final[k].SrcStart < len(hits)
+//@   loop 5 invariant forall k int :: 0 <= k && k < len(out) ==> 0 <= out[k] && out[k] < len(hits)
+//@   props C10 C09
+//
+//@ func (*matchRange).in
+//@   inline
+//@
+//@ func (*Classifier).fuseRanges
+//@   requires c != nil && targetSize >= 0 && okMRs(matched, targetSize)
+//@   requires forall k int :: 0 <= k && k < len(runs) ==> 0 <= runs[k].SrcStart
+//@   ensures okMRs(result, targetSize)
+//@   ensures result == nil || fresh(result)
+//@   modifies pointees(matched)
+//@   loop 1 invariant len(filter) == targetSize && fresh(filter)
+//@   loop 2 invariant len(filter) == targetSize && fresh(filter) && 0 <= i
+//@   loop 3 invariant len(filter) == targetSize && fresh(filter) && okMRs(matched, targetSize) && okMRs(claimed, targetSize) && (claimed == nil || fresh(claimed))
+//@   loop 3 invariant forall k int :: 0 <= k && k < len(claimed) ==> pointee(matched, claimed[k])
+//@   loop 4 invariant len(filter) == targetSize && fresh(filter) && okMRs(matched, targetSize) && okMRs(claimed, targetSize) && (claimed == nil || fresh(claimed)) && okMR(m, targetSize)
+//@   loop 4 invariant forall k int :: 0 <= k && k < len(claimed) ==> pointee(matched, claimed[k])
+//@   loop 4 invariant pointee(matched, m)
+//@   props C10 C09
+//
+//@ func (*Classifier).getMatchedRanges
+//@   requires c != nil && wfSet(src) && wfSet(target)
+//@   ensures okMRs(result, len(target.Tokens))
+//@   modifies nothing
+//@   props C10 C09
+//@
+//@ func (*Classifier).findPotentialMatches
+//@   requires c != nil && wfSet(src) && wfSet(target)
+//@   ensures okMRs(result, len(target.Tokens))
+//@   modifies nothing
+//@   props C10 C09 C03
+//@
+//@ func (matchRanges).Len
+//@   ensures result == len(m)
+//@   modifies nothing
+//@   props C10 C04
+//@
+//@ func (matchRanges).Swap
+//@   requires 0 <= i && i < len(m) && 0 <= j && j < len(m)
+//@   ensures m[i] == old(m[j]) && m[j] == old(m[i])
+//@   ensures forall k int :: 0 <= k && k < len(m) && k != i && k != j ==> m[k] == old(m[k])
+//@   modifies elems(m)
+//@   props C10 C04
+//@
+//@ spec mrLess(a *matchRange, b *matchRange) bool = ite(a.TokensClaimed != b.TokensClaimed, a.TokensClaimed > b.TokensClaimed, ite(a.TargetStart != b.TargetStart, a.TargetStart < b.TargetStart, a.SrcStart < b.SrcStart))
+//@
+//@ func (matchRanges).Less
+//@   requires 0 <= i && i < len(m) && 0 <= j && j < len(m) && m[i] != nil && m[j] != nil
+//@   ensures result == mrLess(m[i], m[j])
+//@   modifies nothing
+//@   props C10 C04
+//
+// ---------------------------------------------------------------- diff.go / scoring.go (documents)
+//
+//@ func diffWordsToRunes
+//@   requires doc != nil && 0 <= start && start <= end && end <= len(doc.Tokens)
+//@   ensures len(result) == end - start && fresh(result)
+//@   modifies nothing
+//@   loop 1 invariant len(runes) == rangeindex + 1 && fresh(runes) && cap(runes) == end - start
+//@   props C10 C09
+//@
+//@ func diffRunesToWords
+//@   requires dict != nil
+//@   ensures len(result) == len(diffs) && fresh(result)
+//@   modifies nothing
+//@   loop 1 invariant len(hydrated) == rangeindex + 1 && fresh(hydrated) && cap(hydrated) == len(diffs)
+//@   props C10 C09
+//@
+//@ func docDiff
+//@   requires doc1 != nil && doc2 != nil && doc1.dict != nil
+//@   requires 0 <= doc1Start && doc1Start <= doc1End && doc1End <= cap(doc1.runes)
+//@   requires 0 <= doc2Start && doc2Start <= doc2End && doc2End <= cap(doc2.runes)
+//@   ensures fresh(result)
+//@   modifies elems(doc1.runes), elems(doc2.runes)
+//@   props C10
+//@
+//@ func isVersionNumber
+//@   modifies nothing
+//@   props C10 C09
+//@
+//@ func scoreDiffs
+//@   requires nsep(id, runeStr(47)) >= 1
+//@   ensures result >= 0 || result == -1 || result == -2 || result == -3
+//@   modifies nothing
+//@   props C10 C09 C02
+//@
+//@ func (*Classifier).score
+//@   requires c != nil && unknown != nil && known != nil && known.s != nil && unknown.dict != nil
+//@   requires 0 <= unknownStart && unknownStart <= unknownEnd && unknownEnd <= cap(unknown.runes)
+//@   requires len(known.Tokens) <= cap(known.runes) && nsep(id, runeStr(47)) >= 1
+//@   ensures result1 >= 0 && result2 >= 0
+//@   ensures !isNaN(result0) && result0 <= 1.0
+//@   modifies elems(unknown.runes), elems(known.runes)
+//@   props C10 C03 C02
+//@
+// ---------------------------------------------------------------- classifier.go: names
+//
+//@ func detectionType
+//@   ensures true
+//@   modifies nothing
+//@   props C10 C03
+//@
+//@ func variantName
+//@   requires nsep(in, runeStr(47)) >= 2
+//@   modifies nothing
+//@   props C10 C03
+//@
+//@ func LicenseName
+//@   requires nsep(in, runeStr(47)) >= 1
+//@   modifies nothing
+//@   props C10 C03
+//@
+//@ func (*Classifier).generateDocName
+//@   ensures nsep(result, runeStr(47)) >= 2
+//@   modifies nothing
+//@   props C10 C03
+//@
+//@ func contains
+//@   inline
+//@ func between
+//@   inline
+//@ func overlaps
+//@   inline
+//
+// ---------------------------------------------------------------- documents and the classifier
+// wfDoc: what tokenizeStream establishes for a fresh document.
+// wfCorpusDoc: a document stored in the corpus (search set generated).
+// wfClassifier: representation invariant of *Classifier.
+//
+//@ spec okLines(d *indexedDocument) bool = forall i int :: 0 <= i && i < len(d.Tokens) ==> d.Tokens[i].Line >= 1
+//@ spec okPseudo(ms Matches) bool = forall i int :: 0 <= i && i < len(ms) ==> ms[i] != nil && ms[i].Name == "Copyright" && ms[i].MatchType == "Copyright" && ms[i].Confidence == 1.0 && ms[i].StartLine == ms[i].EndLine && ms[i].StartLine >= 1
+//@ spec wfDoc(d *indexedDocument) bool = d != nil && d.f != nil && d.dict != nil && len(d.runes) == len(d.Tokens) && okLines(d) && okPseudo(d.Matches)
+//@ spec wfCorpusDoc(d *indexedDocument) bool = wfDoc(d) && wfSet(d.s) && d.s.Tokens == d.Tokens
+//@ spec wfClassifier(c *Classifier) bool = c != nil && wfDict(c.dict) && c.docs != nil && c.q >= 1 && (forall l string :: (l in c.docs) ==> wfCorpusDoc(c.docs[l]) && nsep(l, runeStr(47)) >= 2)
+//@
+//@ func tokenizeStream
+//@   trusted
+//@   requires dict != nil && ((updateDict || !normalize) ==> wfDict(dict))
+//@   ensures result1 != nil ==> result0 == nil
+//@   ensures typeis(src, "*bytes.Reader") ==> result1 == nil
+//@   ensures result1 == nil ==> fresh(result0) && wfDoc(result0) && result0.dict == dict && result0.s == nil && fresh(result0.f) && fresh(result0.runes)
+//@   ensures wfDict(dict) == old(wfDict(dict)) && dict.words == old(dict.words) && dict.indices == old(dict.indices)
+//@   modifies entries(dict.words), entries(dict.indices) when updateDict || !normalize
+//@
+//@ func NewClassifier
+//@   requires 0.0 <= threshold && threshold <= 1.0
+//@   ensures fresh(result) && same(result.threshold, threshold) && wfClassifier(result) && len(result.docs) == 0
+//@   modifies nothing
+//@   props C10
+//@
+//@ func (*Classifier).addDocument
+//@   requires wfClassifier(c) && wfDoc(id) && id.dict == c.dict
+//@   ensures wfClassifier(c) && c.dict == old(c.dict) && c.docs == old(c.docs) && same(c.threshold, old(c.threshold))
+//@   modifies entries(c.docs), id.s
+//@   props C10
+//@
+//@ func (*Classifier).AddContent
+//@   requires wfClassifier(c)
+//@   ensures wfClassifier(c) && same(c.threshold, old(c.threshold))
+//@   modifies entries(c.dict.words), entries(c.dict.indices), entries(c.docs)
+//@   props C10 C04
+//@
+//@ func extern sort.Sort
+//@   trusted
+//@   ensures typeis(data, "Matches") ==> (forall k int :: 0 <= k && k < len(unbox(data, "Matches")) ==> (exists j int :: 0 <= j && j < len(unbox(data, "Matches")) && unbox(data, "Matches")[k] == old(unbox(data, "Matches")[j])))
+//@
+//@ spec okCand(m *Match, ntok int, thr float64) bool = m != nil && (m.MatchType == "Copyright" || (thr <= m.Confidence && m.Confidence <= 1.0 && 0 <= m.StartTokenIndex && m.StartTokenIndex <= m.EndTokenIndex && m.EndTokenIndex < ntok))
+//@
+//@ func (*Classifier).match
+//@   requires wfClassifier(c) && 0.0 <= c.threshold && c.threshold <= 1.0
+//@   ensures result1 != nil ==> len(result0.Matches) == 0 && result0.TotalInputLines == 0
+//@   ensures forall i int :: 0 <= i && i < len(result0.Matches) ==> result0.Matches[i] != nil
+//@   loop 1 invariant firstPass != nil && fresh(firstPass) && wfDoc(id) && fresh(id) && id.s == nil && id.dict == c.dict
+//@   loop 1 invariant forall l string :: (l in firstPass) ==> (l in c.docs) && firstPass[l] == c.docs[l]
+//@   loop 2 invariant fresh(firstPass) && wfDoc(id) && fresh(id) && wfSet(id.s) && id.s.Tokens == id.Tokens && id.dict == c.dict
+//@   loop 2 invariant forall l string :: (l in firstPass) ==> (l in c.docs) && firstPass[l] == c.docs[l]
+//@   loop 2 invariant forall k int :: 0 <= k && k < len(candidates) ==> candidates[k] != nil
+//@   loop 2 invariant candidates == nil || (fresh(candidates) && ref(candidates) != ref(id.Matches))
+//@   loop 3 invariant fresh(firstPass) && wfDoc(id) && fresh(id) && wfSet(id.s) && id.s.Tokens == id.Tokens && id.dict == c.dict
+//@   loop 3 invariant forall l string :: (l in firstPass) ==> (l in c.docs) && firstPass[l] == c.docs[l]
+//@   loop 3 invariant forall k int :: 0 <= k && k < len(candidates) ==> candidates[k] != nil
+//@   loop 3 invariant candidates == nil || (fresh(candidates) && ref(candidates) != ref(id.Matches))
+//@   loop 3 invariant (l in c.docs) && d == c.docs[l] && okMRs(matches, len(id.Tokens))
+//@   loop 4 invariant len(retain) == len(candidates) && fresh(retain) && (forall k int :: 0 <= k && k < len(candidates) ==> candidates[k] != nil)
+//@   loop 5 invariant len(retain) == len(candidates) && fresh(retain) && (forall k int :: 0 <= k && k < len(candidates) ==> candidates[k] != nil)
+//@   loop 5 invariant proposals != nil && fresh(proposals) && (forall p int :: (p in proposals) ==> 0 <= p && p < len(retain))
+//@   loop 6 invariant len(retain) == len(candidates) && fresh(retain) && (forall p int :: (p in proposals) ==> 0 <= p && p < len(retain))
+//@   loop 7 invariant len(retain) == len(candidates) && (forall k int :: 0 <= k && k < len(candidates) ==> candidates[k] != nil)
+//@   loop 7 invariant forall k int :: 0 <= k && k < len(out) ==> out[k] != nil
+//@   props C10 C03 C08
+//@
+//@ func (*Classifier).MatchFrom
+//@   requires wfClassifier(c) && 0.0 <= c.threshold && c.threshold <= 1.0
+//@   ensures result1 != nil ==> len(result0.Matches) == 0 && result0.TotalInputLines == 0
+//@   props C10 C08
+//@
+//@ func (*Classifier).Match
+//@   requires wfClassifier(c) && 0.0 <= c.threshold && c.threshold <= 1.0
+//@   props C10
